@@ -15,7 +15,10 @@ def _case(draw, thorough):
     h = draw(st.integers(1, 5))
     blocks = draw(st.sampled_from([1, 1, 2]))
     clip = draw(st.sampled_from(['off', 'off', 'active']))
-    return {'pipe': 1, 'data': dp, 'model': mp, 'blocks': blocks, 'h': h, 'f': f,
+    pp = draw(st.sampled_from([1, 1, 1, 2]))
+    if pp * dp * mp > 12:
+        pp = 1
+    return {'pipe': pp, 'data': dp, 'model': mp, 'blocks': blocks, 'h': h, 'f': f, 'accum': draw(st.sampled_from([1, 1, 2])),
             'bias': [[draw(st.booleans()), draw(st.booleans())] for _ in range(blocks)],
             'seed': draw(st.integers(0, 9999)), 'N': draw(st.integers(1, 3)),
             'cap': draw(st.sampled_from([0, 1e-5, 25.0])), 'in_hook': draw(st.booleans()), 'prediv': False,
@@ -29,7 +32,7 @@ def _case(draw, thorough):
 class C11(Prop):
     id = 'C11'
     title = 'Model-parallel sharding is transparent to GPT-NeoX preconditioning'
-    rule = ('Hypothesis draws data-parallel degree 1-3 x model-parallel degree 1-4 (pipe = 1), one or two Megatron MLP blocks '
+    rule = ('Hypothesis draws data-parallel degree 1-3 x model-parallel degree 1-4 (pipe 1, sometimes 2 with independent stage stacks), accumulation 1-2, one or two Megatron MLP blocks '
             '(column-parallel -> tanh -> row-parallel, hidden 1-5, ffn = model degree x 1-3), bias on/off independently per layer, clipping '
             'inactive (1e30) or active, bucketed or not, hook/no-hook, 1-3 steps with gradient-independent weight drift, and a rank schedule. '
             'The real GPTNeoXKFACPreconditioner runs on data x model simulated ranks with DeepSpeed/Megatron doubles (real sharded '
@@ -59,8 +62,8 @@ class C11(Prop):
         from vkit import gptrun, refkfac
         from vkit.ds_doubles import PipeModelDataParallelTopology
 
-        dp, mp = case['data'], case['model']
-        W = dp * mp
+        dp, mp, pp = case['data'], case['model'], case.get('pipe', 1)
+        W = dp * mp * pp
         program = [{'op': 'train', 'seed': case['data_seed'] + t} for t in range(case['steps'])] + [{'op': 'state_dict'}]
         labels = {'data': dp, 'model': mp, 'clip': case['clip'], 'blocks': case['blocks'], 'bucketed': case['cap'] > 0,
                   'bias_free_col': any(not b[0] for b in case['bias']), 'bias_free_row': any(not b[1] for b in case['bias'])}
@@ -71,14 +74,15 @@ class C11(Prop):
         if not res.ok:
             v = res.violations[0]
             return violation(f'protocol violation {v} :: data={dp} model={mp} bias={case["bias"]} clip={case["clip"]}', 'protocol:' + v.kind, labels=labels)
-        ref = gptrun.run_reference(case, program, 0)
-        topo = PipeModelDataParallelTopology(num_pp=1, num_mp=mp, num_dp=dp)
+        refs = [gptrun.run_reference(case, program, stage) for stage in range(pp)]
+        topo = PipeModelDataParallelTopology(num_pp=pp, num_mp=mp, num_dp=dp)
+        labels['pipe'] = pp
         eps = refkfac.EPS[torch.float32]
         lam = case['hp']['damping']
         # factors of the unsharded layers
         state = res.results[0][-1]['state']
         tol_f = 4 * (case['steps'] + 1) * 2 * eps
-        for n, f in ref[-1]['factors'].items():
+        for n, f in [(n, f) for ref in refs for n, f in ref[-1]['factors'].items()]:
             if n not in state['layers']:
                 return violation(f'gathered state lacks layer {n}: {sorted(state["layers"])}', 'state-missing-layer', labels=labels)
             for which in ('A', 'G'):
@@ -94,7 +98,7 @@ class C11(Prop):
         kmax = {}
         for t in range(case['steps']):
             tols = {}
-            for n, f in ref[t]['factors'].items():
+            for n, f in [(n, f) for ref in refs for n, f in ref[t]['factors'].items()]:
                 A, G = f['A'].to(torch.float64), f['G'].to(torch.float64)
                 k = refkfac.solve_eigen(A, G, lam, torch.zeros(G.shape[0], A.shape[0], dtype=torch.float64))[1]
                 kmax[n] = max(kmax.get(n, 1.0), k)
@@ -102,6 +106,7 @@ class C11(Prop):
             tmax = max(tols.values())
             for rank in range(W):
                 co = topo.get_coord(rank)
+                ref = refs[co.pipe]
                 after = res.results[rank][t]['after']
                 for pname, g in after.items():
                     lname = pname.rsplit('.', 1)[0]
@@ -117,6 +122,8 @@ class C11(Prop):
                     dD = 0.0
                     for r2 in range(W):
                         c2 = topo.get_coord(r2)
+                        if c2.pipe != co.pipe:
+                            continue
                         for pn in (lname + '.weight', lname + '.bias'):
                             if pn in res.results[r2][t]['before']:
                                 e = gptrun.shard_of(case, pn, ref[t]['before'][pn], c2.model).double() - res.results[r2][t]['before'][pn].double()
@@ -125,7 +132,7 @@ class C11(Prop):
                     # replicas / peers: exact
                     for other in range(W):
                         oc = topo.get_coord(other)
-                        same_shard = oc.model == co.model or pname.endswith('row.bias')
+                        same_shard = oc.pipe == co.pipe and (oc.model == co.model or pname.endswith('row.bias'))
                         if other != rank and same_shard and not torch.equal(g, res.results[other][t]['after'][pname]):
                             key = 'clip-scale-model-parallel' if clip_region else 'replica-divergence'
                             return violation(f'step {t}: gradient {pname} differs between rank {rank} {tuple(co)} and rank {other} {tuple(oc)} which hold the same shard '
